@@ -19,10 +19,16 @@
    ProofsSorted (quick_argsort: permutation, sortedness over R), ProofsEndToEnd (orders computed by
    the fit functions), ProofsGrowFull (internal nodes carry the split the search returned; why a leaf
    is a leaf), ProofsOpt (regression: greedy optimality, completeness), ProofsOptCls + ProofsPure
-   (classification: optimality among boundary thresholds, purity). *)
+   (classification: optimality among boundary thresholds, purity), ProofsImpurity (Gini / entropy /
+   classification error as concave homogeneous functions of the class counts) + ProofsBoundary (the
+   boundary-point property: a best boundary threshold is best among all admissible thresholds),
+   ProofsScale (the fitted regressor commutes with every monotone, midpoint-preserving relabelling of
+   the feature values: simulation through quicksort, sweep and growth) + ProofsScaleR (exact reals,
+   any positive factor) + ProofsScaleF64 (binary64, factor 2^e, via Flocq). *)
 From Coq Require Import List Arith ZArith Bool Reals Lra Floats Lia.
 From SC Require Import Base.Num C05.Model C05.ProofsGrow C05.ProofsReg C05.ProofsCls C05.ProofsSort
-                       C05.ProofsSorted C05.ProofsEndToEnd C05.ProofsGrowFull C05.ProofsOpt C05.ProofsOptCls C05.ProofsPure.
+                       C05.ProofsSorted C05.ProofsEndToEnd C05.ProofsGrowFull C05.ProofsOpt C05.ProofsOptCls C05.ProofsPure
+                       C05.ProofsImpurity C05.ProofsBoundary C05.ProofsScale C05.ProofsScaleR C05.ProofsScaleF64.
 Import ListNotations.
 Local Open Scope nat_scope.
 
@@ -315,10 +321,11 @@ Qed.
    these are exactly the candidates the sweep examines (it skips the midpoint between two consecutive
    rows of the same class) - internal nodes are not pure, and without a depth limit an impure node with
    more than min_samples_split rows stays a leaf only if no admissible boundary threshold exists.
-   What is missing for the full statement: the purely mathematical fact that for min_samples_leaf = 1
+   The step to the full statement is the purely mathematical fact that for min_samples_leaf = 1
    a best boundary threshold is best among ALL admissible thresholds (concavity of Gini / entropy /
-   classification error along a run of rows of one class; `boundary_point_property`).  It is isolated
-   as the single hypothesis of C05_classification_split_greedy_optimal_conditional. *)
+   classification error along a run of rows of one class; `boundary_point_property`).  It is the single
+   hypothesis of C05_classification_split_greedy_optimal_conditional and is proved further down
+   (C05_boundary_point_property), which gives C05_classification_split_greedy_optimal. *)
 Theorem C05_classification_split_greedy_optimal_partial :
   forall lg2 crit x yi k samples order msl mss,
     length yi = length x -> length samples = length x -> (forall r, nth r yi 0 < k) ->
@@ -379,10 +386,13 @@ Theorem C05_classification_split_greedy_optimal_partial_fit :
 Proof. exact classification_split_boundary_optimal_fit. Qed.
 
 (* the full statement of the property's classifier clause (min_samples_leaf = 1, distinct values,
-   lg2 = the real binary logarithm): best among ALL admissible thresholds.  NOT proved: it follows from
-   the partial theorem and `boundary_point_property` (next theorem), which is the missing mathematics;
-   the clause is covered by the failing-input search (brute-force best split at every internal node). *)
-Definition C05_classification_split_greedy_optimal_full_statement : Prop :=
+   lg2 = the real binary logarithm, every criterion, any weights, any depth / split-size limits): the
+   chosen threshold is best among ALL admissible thresholds of all features.  PROVED: the partial
+   theorem above + the boundary-point property (C05_boundary_point_property below; C05/ProofsBoundary.v,
+   from the concavity of count x impurity, C05/ProofsImpurity.v).  For Gini and ClassificationError
+   the result does not depend on lg2 (C05_classification_split_greedy_optimal_conditional with
+   C05_boundary_point_property_gini / _clserr gives it for any lg2). *)
+Theorem C05_classification_split_greedy_optimal :
   forall crit x yi k samples order md mss nodes d,
     let lg2 := (fun p : R => ln p / ln 2)%R in
     length yi = length x -> length samples = length x -> (forall r, nth r yi 0 < k) ->
@@ -397,6 +407,53 @@ Definition C05_classification_split_greedy_optimal_full_statement : Prop :=
           forall j t, j < length (hd [] x) -> admissible x 1 (G n) j t ->
             (cls_gain lg2 crit x yi k (G n) j t <=
              cls_gain lg2 crit x yi k (G n) (split_feature (nth n nodes (dnode 0%nat))) t0)%R.
+Proof. intros crit x yi k samples order md mss nodes d lg2. exact (classification_split_greedy_optimal crit x yi k samples order md mss nodes d). Qed.
+
+(* the same for DecisionTreeClassifier::fit (class indices and orders computed by the model) *)
+Theorem C05_classification_split_greedy_optimal_fit :
+  forall crit x y md mss classes nodes d,
+    let lg2 := (fun p : R => ln p / ln 2)%R in
+    length y = length x ->
+    (forall j, j < length (hd [] x) -> distinct_feature x j) ->
+    fit_classifier ROps lg2 crit x y md 1 mss = Some (classes, nodes, d) ->
+    exists yi, length yi = length x /\
+      (forall i, i < length x -> nth i yi 0 < length classes /\ nth (nth i yi 0) classes 0%R = nth i y 0%R) /\
+      exists G D, tree_consistent ROps 0 x 1 (cls_out_ok x yi (length classes)) (repeat 1 (length x)) nodes G D /\
+        forall n, n < length nodes -> leafb (nth n nodes (dnode 0)) = false ->
+          forall t0, split_value (nth n nodes (dnode 0)) = Some t0 ->
+            admissible x 1 (G n) (split_feature (nth n nodes (dnode 0))) t0 /\
+            forall j t, j < length (hd [] x) -> admissible x 1 (G n) j t ->
+              (cls_gain lg2 crit x yi (length classes) (G n) j t <=
+               cls_gain lg2 crit x yi (length classes) (G n) (split_feature (nth n nodes (dnode 0%nat))) t0)%R.
+Proof. intros crit x y md mss classes nodes d lg2. exact (classification_split_greedy_optimal_fit crit x y md mss classes nodes d). Qed.
+
+(* classification_growth_complete (min_samples_leaf = 1, distinct values): without a depth limit an impure
+   node holding more than min_samples_split rows stays a leaf only if NO admissible threshold exists *)
+Theorem C05_classification_growth_complete :
+  forall crit x yi k samples order mss nodes d,
+    let lg2 := (fun p : R => ln p / ln 2)%R in
+    length yi = length x -> length samples = length x -> (forall r, nth r yi 0 < k) ->
+    (forall j, j < length (hd [] x) -> sorted_order x j (nth j order [])) ->
+    (forall j, j < length (hd [] x) -> distinct_feature x j) ->
+    fit_classifier_with_order ROps lg2 crit x yi k samples (fun _ => seq 0 (length (hd [] x))) order None 1 mss
+      = Some (nodes, d) ->
+    length nodes < 65535 ->
+    exists G D, tree_consistent ROps 0 x 1 (cls_out_ok x yi k) samples nodes G D /\
+      forall n, n < length nodes -> leafb (nth n nodes (dnode 0)) = true ->
+        is_pure x yi (G n) = false -> mss < sum_nat (G n) ->
+        forall j t, j < length (hd [] x) -> ~ admissible x 1 (G n) j t.
+Proof. intros crit x yi k samples order mss nodes d lg2. exact (classification_growth_complete crit x yi k samples order mss nodes d). Qed.
+
+(* the boundary-point property itself (Fayyad-Irani): for min_samples_leaf = 1, pairwise distinct values
+   of the feature and an impure node, every admissible threshold is matched or beaten by an admissible
+   boundary threshold of the same feature.  Gini and ClassificationError: for every `lg2`; Entropy: for
+   the real binary logarithm. *)
+Theorem C05_boundary_point_property_gini : forall lg2, boundary_point_property lg2 Gini.
+Proof. exact boundary_point_gini. Qed.
+Theorem C05_boundary_point_property_clserr : forall lg2, boundary_point_property lg2 ClassificationError.
+Proof. exact boundary_point_clserr. Qed.
+Theorem C05_boundary_point_property : forall crit, boundary_point_property (fun p : R => ln p / ln 2)%R crit.
+Proof. exact boundary_point_all. Qed.
 
 Theorem C05_classification_split_greedy_optimal_conditional :
   forall lg2 crit, boundary_point_property lg2 crit ->
@@ -415,15 +472,115 @@ Theorem C05_classification_split_greedy_optimal_conditional :
              cls_gain lg2 crit x yi k (G n) (split_feature (nth n nodes (dnode 0%nat))) t0)%R.
 Proof. exact classification_split_optimal_conditional. Qed.
 
-(* Still stated but not proved (covered by the failing-input search only): x 2^k invariance. *)
-Definition C05_scale_invariance_pow2_full_statement : Prop :=
+(* ---- scale invariance ----
+   The regressor applies to feature values only the comparisons <=, <, == (quick_argsort, the tie test of
+   the sweep, the threshold test of `split`) and the midpoint (a + b) / 2 of two feature values.
+   C05_scale_invariance_generic: for ANY number type and any map phi that - on a set V of values that
+   contains 0 and all data - preserves the three comparisons, commutes with the midpoint, and preserves
+   the comparison of a data value with a midpoint (Vt: a set containing the midpoints), fitting on the
+   relabelled matrix returns the tree fitted on x with every threshold t replaced by phi t: identical
+   node array structure, outputs, split features, split scores, child indices and depth.  Axiom-free. *)
+Theorem C05_scale_invariance_generic :
+  forall T (O : Ops T) (phi : T -> T) (V Vt : T -> Prop),
+    phi (o0 O) = o0 O -> V (o0 O) ->
+    (forall a b, V a -> V b -> oleb O (phi a) (phi b) = oleb O a b) ->
+    (forall a b, V a -> V b -> oltb O (phi a) (phi b) = oltb O a b) ->
+    (forall a b, V a -> V b -> oeqb O (phi a) (phi b) = oeqb O a b) ->
+    (forall a b, V a -> V b -> Vt (mid O a b)) ->
+    (forall a b, V a -> V b -> mid O (phi a) (phi b) = phi (mid O a b)) ->
+    (forall v t, V v -> Vt t -> oleb O (phi v) (phi t) = oleb O v t) ->
+    forall x, (forall i j, V (getx O x i j)) ->
+    forall y md msl mss,
+      fit_regressor O (map (map phi) x) y md msl mss =
+      option_map (relabel_tree phi) (fit_regressor O x y md msl mss).
+Proof.
+  intros T O phi V Vt H0 HV0 Hle Hlt Heq HmV Hmid Hthr x Hx y md msl mss.
+  exact (fit_regressor_relabel O phi V Vt H0 HV0 Hle Hlt Heq HmV Hmid Hthr x Hx y md msl mss).
+Qed.
+
+(* exact reals: multiplication of all features by ANY c > 0 (in particular 2^e) *)
+Theorem C05_scale_invariance_real :
+  forall (c : R) (x : list (list R)) (y : list R) md msl mss, (0 < c)%R ->
+    fit_regressor ROps (map (map (fun v => v * c)%R) x) y md msl mss =
+    option_map (relabel_tree (fun v => v * c)%R) (fit_regressor ROps x y md msl mss).
+Proof. intros c x y md msl mss Hc. exact (fit_regressor_scale_R c Hc x y md msl mss). Qed.
+
+(* scale_invariance_pow2, BINARY64 (the FOps instance = the arithmetic of the f64 code): multiplying every
+   feature by 2^e, 0 <= e <= 1023, leaves the fitted regressor unchanged - node array structure, outputs,
+   split features, split scores, child indices, depth - except that every threshold is multiplied by 2^e.
+   Exponent-range hypothesis `pow2_scalable e v` (C05/ProofsScaleF64.v) on every feature value v:
+       v is finite (no NaN / infinity)  and  v = 0 (either sign)  or  2^-969 <= |v| <= 2^(1022-e),
+   stated on the real value B2R (Prim2B v) of the float.  The upper bound excludes overflow of v 2^e and
+   of the sum of two scaled values; the lower bound keeps the sum a + b of two feature values and its half
+   out of the subnormal range, where rounding does not commute with scaling (e.g. a + b = 2^-1074:
+   (a + b) / 2 rounds to 0 but (a 2^e + b 2^e) / 2 = 2^(e-1075) does not).
+   `relabel_tree phi (nodes, depth)` = (nodes with split_value mapped through phi, depth).
+   Proof: C05_scale_invariance_generic + Flocq's correctness theorems for binary64 multiplication,
+   addition, division, ldexp and comparison and its bridge to Coq's primitive floats (Print Assumptions
+   lists Coq's FloatAxioms.* / Uint63 axioms, i.e. the specification of the primitive operations). *)
+Theorem C05_scale_invariance_pow2 :
   forall (x : list (list float)) (y : list float) md msl mss (e : Z),
-    (0 < e)%Z ->
+    (0 <= e <= 1023)%Z ->
+    Forall (Forall (pow2_scalable e)) x ->
+    let phi := (fun v => PrimFloat.mul v (Z.ldexp 1%float e)) in
+    fit_regressor FOps (map (map phi) x) y md msl mss =
+    option_map (relabel_tree phi) (fit_regressor FOps x y md msl mss).
+Proof. intros x y md msl mss e He Hx phi. exact (fit_regressor_pow2 e He x y md msl mss Hx). Qed.
+
+(* the same for the classification tree (every criterion, any log2 table `lg2`): class list, node array
+   (majority-class outputs, split features, scores, child indices) and depth are unchanged, thresholds are
+   multiplied by 2^e.  `relabel_classifier phi (classes, nodes, depth)` maps the split values through phi. *)
+Theorem C05_scale_invariance_pow2_classifier :
+  forall lg2 crit (x : list (list float)) (y : list float) md msl mss (e : Z),
+    (0 <= e <= 1023)%Z ->
+    Forall (Forall (pow2_scalable e)) x ->
+    let phi := (fun v => PrimFloat.mul v (Z.ldexp 1%float e)) in
+    fit_classifier FOps lg2 crit (map (map phi) x) y md msl mss =
+    option_map (relabel_classifier phi) (fit_classifier FOps lg2 crit x y md msl mss).
+Proof. intros lg2 crit x y md msl mss e He Hx phi. exact (fit_classifier_pow2 e He lg2 crit x y md msl mss Hx). Qed.
+
+(* generic and exact-real versions for the classification tree *)
+Theorem C05_scale_invariance_generic_classifier :
+  forall T (O : Ops T) (phi : T -> T) (V Vt : T -> Prop),
+    phi (o0 O) = o0 O -> V (o0 O) ->
+    (forall a b, V a -> V b -> oleb O (phi a) (phi b) = oleb O a b) ->
+    (forall a b, V a -> V b -> oltb O (phi a) (phi b) = oltb O a b) ->
+    (forall a b, V a -> V b -> oeqb O (phi a) (phi b) = oeqb O a b) ->
+    (forall a b, V a -> V b -> Vt (mid O a b)) ->
+    (forall a b, V a -> V b -> mid O (phi a) (phi b) = phi (mid O a b)) ->
+    (forall v t, V v -> Vt t -> oleb O (phi v) (phi t) = oleb O v t) ->
+    forall x, (forall i j, V (getx O x i j)) ->
+    forall lg2 crit y md msl mss,
+      fit_classifier O lg2 crit (map (map phi) x) y md msl mss =
+      option_map (relabel_classifier phi) (fit_classifier O lg2 crit x y md msl mss).
+Proof.
+  intros T O phi V Vt H0 HV0 Hle Hlt Heq HmV Hmid Hthr x Hx lg2 crit y md msl mss.
+  exact (fit_classifier_relabel O phi V Vt H0 HV0 Hle Hlt Heq HmV Hmid Hthr x Hx lg2 crit y md msl mss).
+Qed.
+
+Theorem C05_scale_invariance_real_classifier :
+  forall (c : R) lg2 crit (x : list (list R)) (y : list R) md msl mss, (0 < c)%R ->
+    fit_classifier ROps lg2 crit (map (map (fun v => v * c)%R) x) y md msl mss =
+    option_map (relabel_classifier (fun v => v * c)%R) (fit_classifier ROps lg2 crit x y md msl mss).
+Proof. intros c lg2 crit x y md msl mss Hc. exact (fit_classifier_scale_R c Hc lg2 crit x y md msl mss). Qed.
+
+(* ... in the form of the property text: outputs, split features and child indices are unchanged *)
+Theorem C05_scale_invariance_pow2_structure :
+  forall (x : list (list float)) (y : list float) md msl mss (e : Z),
+    (0 <= e <= 1023)%Z ->
+    Forall (Forall (pow2_scalable e)) x ->
     let x' := map (map (fun v => PrimFloat.mul v (Z.ldexp 1%float e))) x in
     option_map (fun r => map (fun nd => (output nd, split_feature nd, true_child nd, false_child nd)) (fst r))
                (fit_regressor FOps x' y md msl mss) =
     option_map (fun r => map (fun nd => (output nd, split_feature nd, true_child nd, false_child nd)) (fst r))
                (fit_regressor FOps x y md msl mss).
+Proof.
+  intros x y md msl mss e He Hx x'. unfold x'.
+  change (map (map (fun v => PrimFloat.mul v (Z.ldexp 1%float e))) x) with (map (map (scale2 e)) x).
+  rewrite (fit_regressor_pow2 e He x y md msl mss Hx).
+  destruct (fit_regressor FOps x y md msl mss) as [[nodes d]|]; [|reflexivity].
+  cbn [option_map relabel_tree fst]. rewrite map_map. reflexivity.
+Qed.
 
 (* ---- the hypotheses are satisfiable (binary64 instance, evaluated by the kernel) ---- *)
 Example C05_regressor_instance :
@@ -488,4 +645,28 @@ Proof.
     + apply Permutation.perm_skip. apply Permutation.perm_swap.
     + apply Permutation.perm_swap.
   - unfold X, getx. repeat constructor; cbn; lra.
+Qed.
+
+(* hypotheses of the boundary-point property: an impure node and an admissible threshold (3/2, between
+   two rows of the SAME class) that is not a boundary threshold; the boundary threshold 3 of
+   C05_distinct_boundary_instance beats it *)
+Example C05_nonboundary_admissible_instance :
+  admissible [[1];[2];[4]]%R 1 [1;1;1] 0 (3/2)%R /\ is_pure [[1];[2];[4]]%R [0;0;1] [1;1;1] = false.
+Proof.
+  split; [|reflexivity].
+  unfold admissible, true_part, false_part, goes_true, le_thr, getx. cbn -[Rleb Rdiv].
+  repeat match goal with
+         | |- context [Rleb ?a ?b] =>
+             first [rewrite (proj2 (Rleb_true a b)) by lra | rewrite (proj2 (Rleb_false a b)) by lra]
+         end.
+  cbn. lia.
+Qed.
+
+(* the exponent-range hypothesis of C05_scale_invariance_pow2 is satisfiable: zeros and powers of two
+   2^-3, 2^5, 2^700 can be scaled by 2^300 *)
+Example C05_pow2_scalable_instance :
+  Forall (Forall (pow2_scalable 300)) [[Z.ldexp 1 (-3); 0]; [Z.ldexp 1 5; Z.ldexp 1 700]; [0; 0]]%float.
+Proof.
+  repeat (apply Forall_cons || apply Forall_nil);
+    first [apply pow2_scalable_zero | apply pow2_scalable_pow2; lia].
 Qed.
